@@ -190,6 +190,26 @@ theorem struct_definition_change_refused :
     ∧ equivalentCallFull false true (ptProg [(kX, pInt), (kY, pInt)]) (ptProg [(kX, pInt)]) = false := by
   decide
 
+/-! The same through NESTING (audit pass 2, LOW-2): stage `A(in Box[] x)`,
+`struct Box(map<Pt> A, int y)`, and the member is added to `Pt` — reached through an
+array, a struct member and a typed map. -/
+private def kBox : Key := [66, 111, 120]
+private def pPtMap : Param := { tname := kPt, arrayDim := 0, mapDim := 1, fileKind := 0, outName := [] }
+private def pBoxArr : Param := { tname := kBox, arrayDim := 1, mapDim := 0, fileKind := 0, outName := [] }
+private def boxProg (fields : List (Key × Param)) : FullProg :=
+  { core := { tab := [(kA, .stage false [(kX, pBoxArr)] [])],
+              call := { id := kA, decId := kA, binds := [(kX, .atom .null)], mods := mods0 } },
+    extras := [], structs := [(kBox, [(kA, pPtMap), (kY, pInt)]), (kPt, fields)] }
+
+example :
+    (boxProg [(kX, pInt)]).core.wf = true ∧ structsWf (boxProg [(kX, pInt)]).structs = true
+    ∧ structsWf (boxProg [(kX, pInt), (kY, pInt)]).structs = true
+    ∧ equivalentCallFull false true (boxProg [(kX, pInt)]) (boxProg [(kX, pInt)]) = true
+    ∧ equivalentCallFull false true (boxProg [(kX, pInt)]) (boxProg [(kX, pInt), (kY, pInt)]) = false
+    ∧ equivalentCallFull false true (boxProg [(kX, pInt), (kY, pInt)]) (boxProg [(kX, pInt)]) = false
+    ∧ equivalentCallFull false false (boxProg [(kX, pInt)]) (boxProg [(kX, pInt), (kY, pInt)]) = true := by
+  decide
+
 /-- Negative witness (F20): without the second pass the same change is accepted. -/
 theorem struct_definition_change_accepted_without_second_pass :
     equivalentCallFull false false (ptProg [(kX, pInt)]) (ptProg [(kX, pInt), (kY, pInt)]) = true := by
